@@ -877,6 +877,37 @@ def sym_binop(it, fr, T, l, r):
         ok = (issubclass(tl, (str, list, bytes, tuple)) and issubclass(tr, int)) or (issubclass(tr, (str, list, bytes, tuple)) and issubclass(tl, int))
     elif T is ast.Mod:
         ok = issubclass(tl, (str, bytes))
+        if isinstance(l, str):
+            # printf-style formatting of a concrete format with symbolic arguments: text made of the literal pieces and
+            # str() / repr() / ascii() of the arguments (only %s %r %a %d %i without flags; anything else is not modelled)
+            import re as _re
+            args = list(r) if isinstance(r, tuple) else [r]
+            pieces, pos, k = [], 0, 0
+            for mm in _re.finditer(r'%(.)', l):
+                pieces.append(l[pos:mm.start()])
+                c = mm.group(1)
+                pos = mm.end()
+                if c == '%':
+                    pieces.append('%')
+                    continue
+                if c not in 'srad i'.replace(' ', '') or k >= len(args):
+                    pieces = None
+                    break
+                a = fr.split(args[k])
+                k += 1
+                if c in 'di':
+                    if not issubclass(pytype_of(a), (int, float)) :
+                        raise PyExc(TypeError(f'%{c} format: a real number is required, not {pytype_of(a).__name__}'))
+                    pieces.append(('str', a) if isinstance(a, Sym) else str(int(a)))
+                elif isinstance(a, (SStr, SText)) and c == 's':
+                    pieces.append(a)
+                elif isinstance(a, Sym) or has_sym(a):
+                    pieces.append(({'s': 'str', 'r': 'repr', 'a': 'ascii'}[c], a))
+                else:
+                    pieces.append({'s': str, 'r': repr, 'a': ascii}[c](a))
+            if pieces is not None and k == len(args):
+                pieces.append(l[pos:])
+                return SText(tuple(x for x in pieces if not (isinstance(x, str) and x == '')))
     elif T is ast.BitOr:
         ok = (issubclass(tl, (set, frozenset, dict)) and issubclass(tr, (set, frozenset, dict)))
     if not ok:
